@@ -1714,6 +1714,12 @@ func (n *node) spawn(factory gen.ProcessFactory, options gen.ProcessOptionsExtra
 				n.sendExitMessage(p.pid, pid, messageExit)
 			}
 		}
+		// children spawned with LinkParent only (act.Pool workers) are
+		// consumers of a link whose target is this process
+		linkConsumers, _ := n.targetManager.CleanupTarget(p.pid)
+		for _, pid := range linkConsumers {
+			n.sendExitMessage(p.pid, pid, messageExit)
+		}
 
 		// terminate meta process that spawned during initialization
 
